@@ -237,7 +237,7 @@ def _machine(res, holder):
 
 
 def shards(tier):
-    per = 400 if tier == "quick" else 6000
+    per = 400 if tier == "quick" else 24000
     return [{"kind": "machine", "n": per, "steps": 25, "idx": i} for i in range(16)]
 
 
